@@ -119,7 +119,7 @@ func refDeploy(s string) (error, []byte, []byte, vmcommon.CodeMetadata, [][]byte
 	}
 	var meta vmcommon.CodeMetadata
 	if m := all[2]; len(m) == 2 {
-		meta = vmcommon.CodeMetadata{Upgradeable: m[0]&vmcommon.MetadataUpgradeable != 0, Readable: m[0]&vmcommon.MetadataReadable != 0, Payable: m[1]&vmcommon.MetadataPayable != 0}
+		meta = vmcommon.CodeMetadata{Upgradeable: m[0]&refMetadataUpgradeable != 0, Readable: m[0]&refMetadataReadable != 0, Payable: m[1]&refMetadataPayable != 0}
 	}
 	return nil, all[0], all[1], meta, all[3:]
 }
